@@ -893,6 +893,7 @@ pub(crate) fn run(sc: &ExtScenario) -> Outcome {
         shared_token: false,
         reverse_end: sc.reverse_end,
         rewrite: false,
+        outbound1: false,
     };
     let rt = tokio::runtime::Builder::new_current_thread().enable_time().build().expect("runtime");
     let mut conns: Vec<MemConn> = Vec::new();
